@@ -22,14 +22,14 @@ PROPS: dict[str, dict[str, Any]] = {
     },
     "C06": {
         "level": "exploration",
-        "sidecars": ["contracts/c06.py"],
+        "sidecars": ["contracts/c06.py", "contracts/c06_tree.py"],
         "native_n": {"quick": 1500, "thorough": 30000},
         "bounded": [{"script": "bounded/gate_harness.py", "args": []}],
         "rule": "bounded stand-in, exhaustive in the property's own bound: every gate tree over n <= 5 (thorough 6) distinct events, depth <= 3, operators "
                 "alternating, children = blocks of a set partition (3 + 21 + 243 + 2493 trees for n = 2..5) with its full outcome family, run through the real "
                 "calculate_logic_gates (pm4py present): soundness on all, exactness on the sub-class (OR over plain events only, no AND with two OR children); "
                 "plus soundness on arbitrary observed families: all 127 families of non-empty subsets of 3 events and 4000 sampled (thorough: all 32767) of 4 "
-                "events. Each case is a distinct input by construction; all are non-trivial (>= 2 events or >= 1 set)",
+                "events; every tree over <= 4 (thorough 5) events again under 7 pools of adversarial event names. Each case is a distinct input by construction; all are non-trivial (>= 2 events or >= 1 set)",
         "assumptions": ["bounded, not proved: pm4py's inductive miner is an external dependency with no contract; operator semantics of the oracle as stated in bounded/gate_harness.py"],
     },
     "C08": {
